@@ -946,9 +946,14 @@ def monOp0 (m : Mon) (op : String) (args : List String) (impl : List String) (tr
         ((t.drop 6).toString.splitOn ",").filterMap fun e => match e.splitOn ":" with
           | ["0", r, _, _] => some r
           | _ => none
-    (resync m out, match live.find? fun n => !probes.contains n with
-      | some n => "bad C17:request-retained-after-its-client-is-gone-and-its-timers-expired:" ++ n
-      | none => "ok")
+    -- … and no lock of a request slot is held (no thread is inside anything that takes one)
+    let heldLock := (headToks out).find? (·.startsWith "heldlock:")
+    (resync m out, match heldLock with
+      | some t => "bad C17:lock-of-a-request-slot-held-while-nothing-is-going-on:" ++ t
+      | none =>
+        match live.find? fun n => !probes.contains n with
+        | some n => "bad C17:request-retained-after-its-client-is-gone-and-its-timers-expired:" ++ n
+        | none => "ok")
   | "tick", [n] => ({ m with now := m.now + (n.toNat?).getD 0 }, "ok")
   | "radput", _ => (m, "ok")
   | "reset", [name] => (resync { m with tx := m.tx.filter (·.1 ≠ name), resetPending := name :: m.resetPending.filter (· ≠ name) } out, "ok")   -- a reset lets everything be sent again
